@@ -90,6 +90,10 @@ where
         T2: DualNum<F2>,
         DefaultAllocator: Allocator<R, C>,
     {
+        if self.0.is_none() {
+            // an absent derivative is zero and can always be converted
+            return Some(Derivative::none());
+        }
         self.0
             .as_ref()
             .and_then(move |eps| {
